@@ -160,6 +160,22 @@ def od_systems(tier):
                        "space": {"type": "grid", "w": 3, "h": 2, "d": 1, "vol": 1.0, "bc": {"x": "periodical"}},
                        "chemostats": [0, 0, 1, 1, 0, 0]},
               "init": [[0, 0, 2, 1, 0, 0], [1, 0, 1, 1, 0, 1]]})
+    for nm, f in (("rates x 1e-20 (total propensity far below machine epsilon, still non-zero)", 1e-20), ("rates x 1e+12", 1e12)):
+        s.append({"name": "A<->B + diffusion on 2x1x1, " + nm,
+                  "spec": {"species": [{"label": "A", "D": 1.0 * f}, {"label": "B", "D": 0.5 * f}],
+                           "reactions": [R([("A", 1)], [("B", 1)], 0.6 * f, 0.3 * f)], "envs": [""],
+                           "space": {"type": "grid", "w": 2, "h": 1, "d": 1, "vol": 1.0}},
+                  "init": [[2, 0, 1, 1]]})
+        s.append({"name": "A->B on a 2-node graph, " + nm,
+                  "spec": {"species": [{"label": "A", "D": 1.0 * f}, {"label": "B", "D": 0.0}],
+                           "reactions": [R([("A", 1)], [("B", 1)], 0.6 * f)], "envs": [""],
+                           "space": {"type": "graph", "nodes": [{"vol": 1.0, "env": 0}, {"vol": 2.0, "env": 0}], "edges": [[0, 1, 1.5, 0.75]]}},
+                  "init": [[2, 1, 0, 0]]})
+    s.append({"name": "'default' written before the environment's own entry (kf, kr, D)",
+              "spec": {"species": [{"label": "A", "D": {"default": 1.0, "m": 0.25}}, {"label": "B", "D": 0.5}],
+                       "reactions": [R([("A", 1)], [("B", 1)], {"default": 1.0, "m": 0.0}, {"default": 0.0, "c": 0.5})], "envs": ["c", "m"],
+                       "space": {"type": "grid", "w": 2, "h": 1, "d": 1, "vol": 1.0, "env": [0, 1]}},
+              "init": [[1, 2, 1, 0]]})
     s.append({"name": "self-neighbour (periodic axis of length 1), A->A+B, dead end",
               "spec": {"species": [{"label": "A", "D": 1.0}, {"label": "B", "D": 0.0}],
                        "reactions": [R([("A", 1)], [("A", 1), ("B", 1)], 0.5), R([("B", 2)], [], 0.3)], "envs": [""],
@@ -501,7 +517,7 @@ def run(ctx):
     ctx.subspace("black box: 6 networks (orders 0-3, repeated reactants, zero constants per environment) x %d spaces x chemostat "
                  "variants x %d seeds; every consecutive sample pair of <=500-event Gillespie runs" % (len(bb) // 6, len(seeds)),
                  len(bb), len(bb) if ex else 0, exhaustive=ex)
-    ctx.subspace("owned draws: all molecular states reachable within depth %d (amount cap 4) of 7 small systems; in every state "
+    ctx.subspace("owned draws: all molecular states reachable within depth %d (amount cap 4) of the small systems; in every state "
                  "every u of the grid {(k+1/2)/%d} for both draws of the step" % (depth, M), len(od), len(od) if ex else 0, exhaustive=ex)
     ctx.subspace("tau-leap: 3 systems x seeds x dt in {2^-6, 2^-4}; every step's logged Poisson (mean, result) pairs", len(tl),
                  len(tl) if ex else 0, exhaustive=ex)
